@@ -52,6 +52,8 @@ pub fn block_on<F: Future>(mut fut: Pin<&mut F>) -> (F::Output, u32) {
         if let Poll::Ready(v) = fut.as_mut().poll(&mut cx) {
             return (v, polls);
         }
+        // Pending: the operation is registered inside the channel from here on
+        crate::fp::reg_mark();
         // wait for a wake that happened after this poll started
         loop {
             let c = cell.fired();
